@@ -175,7 +175,7 @@ fn sanitise(data: &mut Vec<u8>) {
     let mut out: Vec<u8> = Vec::with_capacity(data.len());
     for line in data.split_inclusive(|b| *b == b'\n') {
         let mut l = line.to_vec();
-        if l.len() < 300_000 {
+        {
             let has_dir = l.windows(6).any(|w| w == b"TXTPP#");
             if has_dir {
                 // a '/' that could begin an absolute argument (anything but a path character or the
